@@ -73,6 +73,8 @@ type pkg struct {
 	Notes    []string
 	Twins    []twin // near-name members (twins.go)
 
+	Renditions []string // epub: package documents container.xml lists AFTER the default rendition (renditions.go)
+
 	slideRels map[string][][3]string // pptx: slide member name -> entries of its relationship part
 	Flavour   string                 // xlsx/pptx: namespace flavour of the markup (flavour.go), "" = transitional as always
 }
